@@ -7,8 +7,9 @@ from ..core import Ctx
 from .. import outputcrawl as oc
 
 THEOREMS = ["Privacy.hidden_inherits", "Output.hidden_inherits", "Output.hidden_inside", "Output.no_trace",
-            "Output.no_trace_files", "Output.private_marked", "Output.public_unmarked", "Output.no_trace_partial",
-            "Output.no_trace_counterexample", "Output.no_trace_counterexample_root"]
+            "Output.no_trace_links", "Output.no_trace_files", "Output.private_marked", "Output.public_unmarked",
+            "Output.no_trace_partial", "Output.no_trace_counterexample_root", "Output.no_trace_texts_partial",
+            "Output.no_trace_texts_counterexample", "Output.no_trace_counterexample_old"]
 RULE = ("same runs as C11 (scenario projects: hidden base of a visible class, hidden module imported from, hidden member "
         "overridden and cross-referenced, private objects at every level and by rule, hidden roots, hidden nested classes "
         "and constructors, hidden class between a class and its base; plus random Gen projects) under random lists of "
@@ -27,13 +28,18 @@ ASSUMPTIONS = [
     "zope.interface 'from' notes and extension-provided extra_info are not generated (unguarded in the code, see notes)",
 ]
 PARTIAL = {
-    "Output.no_trace": "full for every row whose code path tests isVisible (16 rows) and for files, anchors, search "
-                       "documents, inventory lines",
-    "Output.no_trace_partial": "all rows, under: no hidden target among class-signature links, overrides notes, via-bases, "
-                               "docstring / annotation cross-references, copied summaries, and no root is hidden",
+    "Output.no_trace": "full for every producer row: a mention of an object that is not visible is never a hyperlink and can only "
+                       "be one of the two root rows (moduleIndex.html, index.html), which are written for a hidden root with its "
+                       "name as plain text",
+    "Output.no_trace_partial": "all mentions, under: no root is hidden (counterexample: no_trace_counterexample_root; open finding)",
+    "Output.no_trace_texts_partial": "the unlinked root nodes of classIndex.html, under: no listed class has an invisible base or an "
+                                     "unresolved base expression naming an invisible object (counterexample: "
+                                     "no_trace_texts_counterexample; open finding)",
 }
-EXPLANATION = ("The producer table of DESIGN C12 is a Lean function from the object table to the list of mentions; rows whose "
-               "code tests isVisible provably never mention a hidden object, the unguarded rows do (known findings).")
+EXPLANATION = ("The producer table of DESIGN C12 is a Lean function from the object table to the list of taglink requests and listing "
+               "entries; `taglinkGuard` models the visibility guard inside taglink (aaed9bd). No hyperlink targets an invisible "
+               "object, whatever the row; the only remaining mentions of hidden objects are index rows that show a name as text "
+               "(roots of moduleIndex.html / index.html, unlinked base nodes of classIndex.html): open findings.")
 
 LISTING_NAMES = {"table": "member-table", "detail": "member-details", "sidebar": "sidebar", "sidebar-inherited": "sidebar",
                  "modindex": "module-index", "alldocs": "all-documents"}
